@@ -53,7 +53,14 @@ func DecodeMetadata(input any, result any) error {
 	if v.Kind() == reflect.Struct {
 		f := v.FieldByName("Properties")
 		if f.IsValid() && f.Kind() == reflect.Map {
-			input = f.Interface().(map[string]string)
+			// The field can be of a named type (such as Properties) or a map of another kind:
+			// anything that is not a map[string]string underneath is left to the cast below
+			mapType := reflect.TypeOf(map[string]string(nil))
+			if f.Type().ConvertibleTo(mapType) {
+				input = f.Convert(mapType).Interface()
+			} else {
+				input = f.Interface()
+			}
 		}
 	}
 
